@@ -16,7 +16,7 @@ func init() {
 	register(&Rule{Name: "STATE.COMMIT", Props: []string{"C18", "C01"}, Floor: 4,
 		Doc: "on the load path nothing persistent is written before the statement has been accepted",
 		Run: ruleStateCommit})
-	register(&Rule{Name: "STATE.RESET", Props: []string{"C18", "C13", "C11", "C09", "C10", "C05"}, Floor: 8,
+	register(&Rule{Name: "STATE.RESET", Props: []string{"C18", "C13", "C11", "C09", "C10", "C05", "C14"}, Floor: 8,
 		Doc: "every piece of state that a Process run writes is reset at the top of Process or is justified monotone",
 		Run: ruleStateReset})
 	register(&Rule{Name: "MEMO.ERR", Props: []string{"C18", "C05", "C08"}, Floor: 2,
